@@ -4,18 +4,19 @@ package main
 // (DESIGN.md section 6.1), plus observe faults (reads that may change hidden state).
 
 type pb struct {
-	r     *RNG
-	g     *Gen
-	ops   []Op
-	nextU int
-	nextS int
-	urls  []int       // URL handle ids created so far
-	party map[int]int // URL id -> owning party
-	sps   []int       // parameter handle ids
-	spOf  map[int]int // parameter handle -> URL id
-	stale map[int]bool
-	nP    int
-	theme map[int][]string // per-plan value pools per setter (nil = plan is not themed)
+	r         *RNG
+	g         *Gen
+	ops       []Op
+	nextU     int
+	nextS     int
+	urls      []int       // URL handle ids created so far
+	party     map[int]int // URL id -> owning party
+	sps       []int       // parameter handle ids
+	spOf      map[int]int // parameter handle -> URL id
+	stale     map[int]bool
+	nP        int
+	theme     map[int][]string // per-plan value pools per setter (nil = plan is not themed)
+	parseInto bool             // also parse through Parser.BasicParser(input, nil, NewUrl(), NoState)
 }
 
 func newPB(r *RNG) *pb {
@@ -57,6 +58,9 @@ func (b *pb) newU(p int) int {
 func (b *pb) parse(withBase bool) int {
 	id := b.newU(1)
 	op := Op{K: "parse", P: 1, D: id, A: QS(b.g.URL())}
+	if b.parseInto && !withBase && b.r.Chance(1, 10) {
+		op.W = 2
+	}
 	if withBase {
 		op.W = 1
 		op.B = QS(b.g.Base())
@@ -339,6 +343,7 @@ func genWorldPlan(prop string, master uint64, run int) Plan {
 	b := newPB(r)
 	pl := Plan{Prop: prop, Seed: master, Run: run}
 	n := histLen(r)
+	b.parseInto = prop == "C04" || prop == "C02" || prop == "C19" || prop == "C03"
 	if r.Chance(1, 2) {
 		b.theme = map[int][]string{}
 		b.g.themeNames = true
